@@ -1,29 +1,58 @@
 ---------------------------- MODULE AdbWriter ----------------------------
-(* C15 design spec: sending one message (header, then payload) over a transport whose bulk_write accepts only  *)
-(* c of the n bytes offered (it reports c, as sockets and USB do).                                            *)
-(*   intended:  resubmit the remainder until everything was accepted                                          *)
-(*   deviation IgnoreShortWrite (finding F1, while open): one bulk_write per part, the count is discarded     *)
-EXTENDS Naturals, Sequences, TLC
-CONSTANTS HdrLen, PayLens, MaxCap, IgnoreShortWrite
-VARIABLES pay, part, off, peer, phase
-vars == <<pay, part, off, peer, phase>>
-\* bytes are named 1..HdrLen (header) and HdrLen+1.. (payload)
-Msg == [i \in 1..(HdrLen + pay) |-> i]
-PartRange == IF part = "hdr" THEN <<1, HdrLen>> ELSE <<HdrLen + 1, HdrLen + pay>>
-Init == pay \in PayLens /\ part = "hdr" /\ off = 0 /\ peer = <<>> /\ phase = "send"
-NextPart == IF part = "hdr" /\ pay > 0 THEN /\ part' = "pay" /\ off' = 0 /\ UNCHANGED phase
-            ELSE /\ phase' = "done" /\ UNCHANGED <<part, off>>
-Write == /\ phase = "send"
-         /\ LET lo == PartRange[1] + off hi == PartRange[2] n == hi - lo + 1 IN
-            \E c \in 1..MaxCap :
-              LET acc == IF c < n THEN c ELSE n IN
-              /\ peer' = peer \o [i \in 1..acc |-> lo + i - 1]
-              /\ IF acc = n \/ IgnoreShortWrite THEN NextPart ELSE /\ off' = off + acc /\ UNCHANGED <<part, phase>>
-         /\ UNCHANGED pay
-Finished == phase = "done" /\ UNCHANGED vars
-Next == Write \/ Finished
+(* C15 design spec: sending messages (header, then payload) over a transport whose bulk_write accepts only    *)
+(* c of the n bytes offered (it reports c, as sockets and USB do) and may also fail without sending anything. *)
+(* Several writers (threads / tasks) share the transport; a message is sent under the transport lock.         *)
+(*   intended:  lock; header: resubmit the remainder until everything was accepted; payload: the same; unlock *)
+(*              a failing bulk_write raises out of the whole send (the lock is released, the call raises)     *)
+(*   deviation IgnoreShortWrite (finding F1 while it was open; now a sanity mutation): one bulk_write per     *)
+(*              part, the count is discarded                                                                  *)
+(*   sanity mutation ResubmitStale: a failed bulk_write in the middle of a part is swallowed and the loop     *)
+(*              goes on with the count of the previous round (seeded change C15-w4-c15-m2)                    *)
+(*   sanity mutation LockPerCall: the lock is taken per bulk_write, not per message (seeded C15-w4-c15-m3)    *)
+EXTENDS Naturals, Sequences, FiniteSets, TLC
+CONSTANTS HdrLen, PayLens, MaxCap, IgnoreShortWrite,
+          Writers, MaxFails, ResubmitStale, LockPerCall
+VARIABLES pay, part, off, peer, phase, lock, last, fails
+vars == <<pay, part, off, peer, phase, lock, last, fails>>
+\* bytes of writer w's message are named <<w, 1..HdrLen>> (header) and <<w, HdrLen+1..>> (payload)
+Msg(w) == [i \in 1..(HdrLen + pay[w]) |-> <<w, i>>]
+PartRange(w) == IF part[w] = "hdr" THEN <<1, HdrLen>> ELSE <<HdrLen + 1, HdrLen + pay[w]>>
+Init == /\ pay \in [Writers -> PayLens] /\ part = [w \in Writers |-> "hdr"] /\ off = [w \in Writers |-> 0] /\ peer = <<>>
+        /\ phase = [w \in Writers |-> "idle"] /\ lock = "free" /\ last = [w \in Writers |-> 0] /\ fails = 0
+Acquire(w) == /\ phase[w] \in {"idle", "relock"} /\ lock = "free" /\ lock' = w /\ phase' = [phase EXCEPT ![w] = "send"]
+              /\ UNCHANGED <<pay, part, off, peer, last, fails>>
+\* after a part: the next part, or done (the lock is released)
+NextPart(w) == IF part[w] = "hdr" /\ pay[w] > 0
+               THEN /\ part' = [part EXCEPT ![w] = "pay"] /\ off' = [off EXCEPT ![w] = 0]
+                    /\ IF LockPerCall THEN phase' = [phase EXCEPT ![w] = "relock"] /\ lock' = "free" ELSE UNCHANGED <<phase, lock>>
+               ELSE /\ phase' = [phase EXCEPT ![w] = "done"] /\ lock' = "free" /\ UNCHANGED <<part, off>>
+Write(w) == /\ phase[w] = "send" /\ lock = w
+            /\ LET lo == PartRange(w)[1] + off[w] hi == PartRange(w)[2] n == hi - lo + 1 IN
+               \E c \in 1..MaxCap :
+                 LET acc == IF c < n THEN c ELSE n IN
+                 /\ peer' = peer \o [i \in 1..acc |-> <<w, lo + i - 1>>]
+                 /\ last' = [last EXCEPT ![w] = acc]
+                 /\ IF acc = n \/ IgnoreShortWrite THEN NextPart(w)
+                    ELSE /\ off' = [off EXCEPT ![w] = off[w] + acc] /\ UNCHANGED part
+                         /\ IF LockPerCall THEN phase' = [phase EXCEPT ![w] = "relock"] /\ lock' = "free" ELSE UNCHANGED <<phase, lock>>
+            /\ UNCHANGED <<pay, fails>>
+\* the transport raises (a timeout: nothing was sent)
+WriteFails(w) == /\ phase[w] = "send" /\ lock = w /\ fails < MaxFails /\ fails' = fails + 1
+                 /\ IF ResubmitStale /\ off[w] > 0
+                    THEN LET n == PartRange(w)[2] - (PartRange(w)[1] + off[w]) + 1 IN         \* swallowed; the stale count is applied again
+                         IF last[w] >= n THEN NextPart(w) /\ UNCHANGED <<peer, last>>
+                         ELSE /\ off' = [off EXCEPT ![w] = off[w] + last[w]] /\ UNCHANGED <<part, phase, lock, peer, last>>
+                    ELSE /\ phase' = [phase EXCEPT ![w] = "raised"] /\ lock' = "free" /\ UNCHANGED <<part, off, peer, last>>
+                 /\ UNCHANGED pay
+Finished == (\A w \in Writers : phase[w] \in {"done", "raised"}) /\ UNCHANGED vars
+Next == (\E w \in Writers : Acquire(w) \/ Write(w) \/ WriteFails(w)) \/ Finished
 Spec == Init /\ [][Next]_vars
-\* the peer receives every byte of the message, in order and without gaps
-PeerGetsAll == phase = "done" => peer = Msg
-InOrderNoGap == \A i \in 1..Len(peer) : peer[i] = i
+\* what the peer got from writer w
+From(w) == SelectSeq(peer, LAMBDA b : b[1] = w)
+\* the peer receives every byte of every message whose send returned, in order and without gaps - or the send raised
+PeerGetsAll == \A w \in Writers : phase[w] = "done" => From(w) = Msg(w)
+InOrderNoGap == \A w \in Writers : \A i \in 1..Len(From(w)) : From(w)[i] = <<w, i>>
+\* the pieces of one message stay together on the wire: between two bytes of a message there is no byte of another writer
+Contiguous == \A i, j \in 1..Len(peer) : (i < j /\ peer[i][1] = peer[j][1]) => \A k \in i..j : peer[k][1] = peer[i][1]
+LockFreeAtEnd == (\A w \in Writers : phase[w] \in {"done", "raised"}) => lock = "free"
 =============================================================================
